@@ -93,7 +93,7 @@ def rename_locals(lines, k, expr):
             if m.group(1) not in names and m.group(1) not in ("this", "other", "self"):
                 names.append(m.group(1))
     for n, nm in enumerate(names, 1):
-        expr = re.sub(r"(?<![\w.>])" + re.escape(nm) + r"(?![\w(])", f"_local{n}", expr)
+        expr = re.sub(r"(?<![\w.])(?<!->)" + re.escape(nm) + r"(?![\w(])", f"_local{n}", expr)
     return expr
 
 
